@@ -72,9 +72,9 @@ var c12Requests = []struct {
 	{`{m1(x:"p")}`, false},
 	{`{m2(b:true) o{m1(x:"q")}}`, false},
 	{`{us{__typename ... on A{a} ... on B{b}}}`, false},
+	{`query($v:String){...F} fragment F on Query{o{m1(x:$v)} a}`, true},
 	{`{is{__typename x}}`, false},
 	{`{__type(name:"Obj"){name fields{name}}}`, false},
-	{`query($v:String){...F} fragment F on Query{o{m1(x:$v)} a}`, true},
 	{`{l{a m2(b:false)} s}`, false},
 }
 
@@ -101,7 +101,11 @@ func c12Run(threads, perThread int) {
 	n := threads * perThread
 	reqs := make([]int, n)
 	for k := range reqs {
-		reqs[k] = sym.Choice("request", len(c12Requests))
+		nreq := 5 // quick: struct fields, methods, union list, fragment with variable
+		if sym.Thorough() {
+			nreq = len(c12Requests)
+		}
+		reqs[k] = sym.Choice("request", nreq)
 	}
 	// alone, each on its own fresh (cold) root
 	want := make([]map[string]interface{}, n)
